@@ -667,14 +667,31 @@ def _fetch_and_resolve(
 # ---------------------------------------------------------------------------
 
 
+def _ipc_stream_size(schema: pa.Schema, batches: list[tuple[pa.RecordBatch, pa.KeyValueMetadata | None]]) -> int:
+    """Return the exact byte length of the IPC stream ``maybe_externalize_*`` would upload.
+
+    Serialises the same batches with the same writer options into a
+    counting sink, so nothing is buffered or copied; the result equals
+    ``len(ipc_bytes)`` (the pre-compression ``raw_size``) of the upload.
+    """
+    sink = pa.MockOutputStream()
+    with new_ipc_stream(sink, schema) as writer:
+        for batch, custom_metadata in batches:
+            if custom_metadata is not None:
+                writer.write_batch(batch, custom_metadata=custom_metadata)
+            else:
+                writer.write_batch(batch)
+    return int(sink.size())
+
+
 def predict_externalize_bytes_for_collector(out: OutputCollector, config: ExternalLocationConfig) -> int:
     """Predict the external upload size if :func:`maybe_externalize_collector` ran now.
 
-    Returns the data batch's logical buffer size when externalisation
-    would fire (storage configured + threshold met), else ``0``.  The
-    real upload includes IPC framing for log + data batches and may
-    differ slightly; this is a lower-bound estimate suitable for
-    pre-flight cap checks.
+    Returns the exact size of the IPC stream (log + data batches, with
+    framing, pre-compression) that would be uploaded when externalisation
+    would fire (storage configured + threshold met), else ``0``.  A
+    logical-buffer-size estimate is a lower bound: a cap between the
+    logical and the framed size would let the upload through.
 
     Used by HTTP dispatch paths to refuse a violating upload BEFORE
     incurring the storage round-trip — the operator's intent in setting
@@ -690,7 +707,7 @@ def predict_externalize_bytes_for_collector(out: OutputCollector, config: Extern
     size = data_ab.batch.get_total_buffer_size()
     if size < config.externalize_threshold_bytes:
         return 0
-    return size
+    return _ipc_stream_size(out.output_schema, [(ab.batch, ab.custom_metadata) for ab in out.batches])
 
 
 def predict_externalize_bytes_for_batch(batch: pa.RecordBatch, config: ExternalLocationConfig) -> int:
@@ -707,7 +724,7 @@ def predict_externalize_bytes_for_batch(batch: pa.RecordBatch, config: ExternalL
     size = batch.get_total_buffer_size()
     if size < config.externalize_threshold_bytes:
         return 0
-    return size
+    return _ipc_stream_size(batch.schema, [(batch, None)])
 
 
 def maybe_externalize_collector(
